@@ -21,7 +21,7 @@ from pyjelly.integrations.rdflib import serialize as rser  # noqa: E402
 ID = "C12"
 LEVEL = "exploration"
 RULE = ("a fixed, seed-derived set of workloads (serializers of both integrations on caller-defined statement sequences: "
-        "stream_frames and flat_stream_to_frames over Triple/Quad/GraphStream, sharing SerializerOptions/LookupPreset objects; "
+        "stream_frames and flat_stream_to_frames over Triple/Quad/GraphStream, sinks/stores with ordered namespace bindings, sharing SerializerOptions/LookupPreset objects; "
         "parsers: parse_jelly_flat and parse_jelly_grouped of both integrations) is first run solo in FRESH subprocesses under "
         "PYTHONHASHSEED 0, 1.., and 'random' - all digests must agree. Then, in one process, each workload's bytes/events must "
         "equal that reference when (a) other streams were created and half-used before, (b) 2-6 workload generators are stepped "
@@ -47,7 +47,7 @@ MANIFEST = {
     "technique": "runtime monitoring: differential output comparison across process histories, generator interleavings, threads (yield injection) and hash seeds",
 }
 
-N_WORKLOADS = 36
+N_WORKLOADS = 40
 
 
 def plan(tier: str) -> dict:
@@ -69,9 +69,9 @@ def shared_options(seed: int, slot: int, cfg: dict):
 
 def make_workload(seed: int, idx: int) -> dict:
     rng = gen.rng_for("C12-workload", seed, idx)
-    kind = ["ser-stream-frames", "ser-flat-frames", "parse-flat", "parse-grouped"][idx % 4]
-    integ = "generic" if (idx // 4) % 2 == 0 else "rdflib"
-    phys = [1, 2, 3][(idx // 8) % 3]
+    kind = ["ser-stream-frames", "ser-flat-frames", "parse-flat", "parse-grouped", "ser-sink-ns"][idx % 5]
+    integ = "generic" if (idx // 5) % 2 == 0 else "rdflib"
+    phys = [1, 2, 3][(idx // 10) % 3]
     if kind == "ser-flat-frames" and phys == 3:
         kind = "ser-stream-frames"
     arity = 3 if phys == 1 else 4
@@ -85,7 +85,16 @@ def make_workload(seed: int, idx: int) -> dict:
     need = gen.need_of(stmts, phys, True)
     n, p, d = cfg["preset"]
     cfg["preset"] = (max(n, need[1], 8), max(p, need[0]), max(d, need[2]))
-    return {"idx": idx, "kind": kind, "integration": integ, "cfg": cfg, "stmts": stmts, "slot": slot}
+    ns = []
+    if kind == "ser-sink-ns":
+        # a store/sink with ordered namespace bindings; rdflib stores get ONE statement (their iteration order is theirs)
+        ns = workloads.bindings(rng, v.ns, k=rng.randint(3, 6))
+        cfg["ns"] = True
+        if integ == "rdflib":
+            stmts = stmts[:1]
+        need = gen.need_of(stmts, phys, True, [("ns", a, b) for a, b in ns])
+        cfg["preset"] = (max(cfg["preset"][0], need[1], 8), max(cfg["preset"][1], need[0]), max(cfg["preset"][2], need[2]))
+    return {"idx": idx, "kind": kind, "integration": integ, "cfg": cfg, "stmts": stmts, "slot": slot, "ns": ns}
 
 
 def open_workload(w: dict, seed: int):
@@ -96,7 +105,12 @@ def open_workload(w: dict, seed: int):
         conv = T.stmt_to_generic if integ == "generic" else T.stmt_to_rdflib
         options = shared_options(seed, w["slot"] * 10 + w["cfg"]["physical"], w["cfg"])
         src = (conv(s) for s in w["stmts"])
-        if w["kind"] == "ser-flat-frames":
+        if w["kind"] == "ser-sink-ns":
+            stream = pj.make_stream({"integration": integ, "physical": w["cfg"]["physical"]}, options)
+            store = pj.generic_sink_of(w["stmts"], w["ns"]) if integ == "generic" else \
+                pj.rdflib_store_of(w["stmts"], w["ns"], dataset=w["cfg"]["physical"] != 1)
+            frames = mod.stream_frames(stream, store)
+        elif w["kind"] == "ser-flat-frames":
             frames = mod.flat_stream_to_frames(src, options)
         else:
             stream = pj.make_stream({"integration": integ, "physical": w["cfg"]["physical"]}, options)
